@@ -270,7 +270,10 @@ def _install_percent():
                     if len(real_parts) != 1:
                         plan = None
         if plan is None:
-            return prev(self, other)
+            with NoTracing():
+                if not isinstance(realize(self), str):
+                    raise TypeError
+                return realize(self) % _core.deep_realize(other)
         if len(plan) >= 1 and any(p[0] == "hex" for p in plan):
             p = [q for q in plan if q[0] == "hex"][0]
             return HexTok(p[1], p[2])
@@ -302,6 +305,51 @@ def _install_percent():
     ASSUMPTIONS.append(
         "plugin: 'literal %s %d' % symbolic values is built by concatenation with str(value) instead of realising; a2b_hex('%0Kx' % n) == n.to_bytes(K/2,'big') for 0 <= n < 16^K (checked concretely by selftest)"
     )
+
+
+# ---------------------------------------------------------------- symbolic str equality (CrossHair 0.0.110 defect)
+def _install_streq():
+    """(n + "#")[:-1] == n evaluates to False in stock CrossHair 0.0.110: the code point containers
+    (list / tuple / SequenceConcatenation / SliceView) are compared with container-type-sensitive ==.
+    Replace with a comparison of lengths and code points that ignores the container type."""
+    L = _bl.LazyIntSymbolicStr
+    T = _bl.SymbolicBoundedIntTuple
+
+    def _eq(self, other):
+        with NoTracing():
+            if isinstance(other, L):
+                op = other._codepoints
+            elif isinstance(other, str):
+                op = [ord(ch) for ch in other]
+            else:
+                return NotImplemented
+            mp = self._codepoints
+            if mp is op:
+                return True
+            left_sym = isinstance(mp, T)
+            right_sym = isinstance(op, T)
+        if left_sym:
+            return mp.__eq__(op)
+        if right_sym:
+            return op.__eq__(mp)
+        if len(mp) != len(op):
+            return False
+        for a, b in zip(mp, op):
+            if a is b:
+                continue
+            if a != b:
+                return False
+        return True
+
+    def _ne(self, other):
+        r = _eq(self, other)
+        if r is NotImplemented:
+            return r
+        return not r
+
+    L.__eq__ = _eq
+    L.__ne__ = _ne
+    ASSUMPTIONS.append("plugin: symbolic str ==/!= compares lengths and code points irrespective of the backing container type (works around a CrossHair 0.0.110 defect where (s+'#')[:-1] == s is False)")
 
 
 # ---------------------------------------------------------------- record which repo functions ran symbolically
@@ -385,6 +433,7 @@ def install():
     _install_bitops()
     _install_stubs()
     _install_percent()
+    _install_streq()
     force_ieee_floats(True)
     ASSUMPTIONS.append("float model: z3 Float64, round-nearest-even (PreciseIeeeSymbolicFloat) unless the claim says real_floats")
 
